@@ -135,7 +135,7 @@ func writeEvidence(prop, profile, tier string, seed uint64, rs []*RunResult, nvi
 		"regression_replays":              regressionInfo,
 		"known_findings_seen":             nknown,
 		"real_components":                 []string{"all 17 elys modules (keepers, hooks, begin/end blockers, msg servers)", "elys ante handler chain with real signature verification", "cosmos-sdk baseapp, auth, bank, staking, gov(ccv democracy), authz, distribution, ccv consumer", "IAVL/rootmulti commit store"},
-		"stubbed_components":              []string{"CometBFT consensus, mempool, p2p (SimComet/SimNet)", "disk (SimDB: in-memory dbm.DB with op counting, read-fault injection, crash/restart)", "IBC counterparties, Band oracle, ICS provider (absent)", "wall clock never read by the harness; block time from SimClock"},
+		"stubbed_components":              []string{"CometBFT consensus, mempool, p2p (SimComet/SimNet)", "disk (SimDB: in-memory dbm.DB with op counting, read-fault injection, crash/restart)", "IBC counterparties, Band oracle, ICS provider (absent)", "wall clock never read by the harness; block time from SimClock; C19 additionally re-executes every run in a child whose wall clock is simulated (testing/synctest bubble: year 2000 onwards, jumping between blocks)"},
 	}
 	ev := map[string]any{
 		"property_id": prop,
